@@ -180,6 +180,7 @@ func (s *LinearState) Add(ctx *Context, id string, x Map) (string, error) {
 		return id, err
 	}
 
+	verifPoint("LinearState.Add.beforeLock")
 	// The lock covers the store, too: storage and memory have to see
 	// concurrent writers of an id in the same order.
 	s.slock(ctx, false)
@@ -448,6 +449,7 @@ func (s *LinearState) FindCachedRules(ctx *Context, event Map) (map[string]*Rule
 	if err != nil {
 		return nil, err
 	}
+	verifPoint("LinearState.FindCachedRules.beforeCache")
 
 	s.cacheMutex.Lock()
 	defer s.cacheMutex.Unlock()
